@@ -6,6 +6,21 @@ from factorysimpy.helper.item import Item
 FOREIGN = 900000      # token ids >= FOREIGN denote events the store has never issued
 NONE_TOK = 999999     # the value None passed as a token
 
+# watchdog: one operation on the real class must return within OP_TIMEOUT seconds (a changed tree may loop forever);
+# BaseException so that no `except Exception` of the library swallows it
+import signal
+OP_TIMEOUT = float(os.environ.get("VERIF_OP_TIMEOUT", "10"))
+class OpTimeout(BaseException): pass
+def _on_alarm(signum, frame): raise OpTimeout()
+def _arm():
+    try:
+        signal.signal(signal.SIGALRM, _on_alarm); signal.setitimer(signal.ITIMER_REAL, OP_TIMEOUT)
+    except ValueError:      # not in the main thread
+        pass
+def _disarm():
+    try: signal.setitimer(signal.ITIMER_REAL, 0)
+    except ValueError: pass
+
 def mk_filter(name):
     if name == "dflt": return None
     if name == "always": return lambda x: True
@@ -84,8 +99,16 @@ class ImplBase:
 
     def do(self, op):
         mark = len(self.env.fired_log)
+        if getattr(self, "_hung", False): return "err Hang | "
         try:
-            res = self.dispatch(op)
+            _arm()
+            try:
+                res = self.dispatch(op)
+            finally:
+                _disarm()
+        except OpTimeout:            # the real code did not return within OP_TIMEOUT seconds (a zero-time livelock, an endless loop)
+            self._hung = True
+            res = "err Hang"
         except Exception as e:       # exception escaping the kernel (adv/settle/kstep)
             res = "err " + type(e).__name__
         if res is None: return None
